@@ -126,38 +126,78 @@ static inline void vp_wr(uint64_t a, int sz, uint64_t v) {
  * generated next to VP_S*).  facq/frel : clocks pending for acquire / published by release fences.  Tracked plain variables
  * (vp_hb_write/vp_hb_read, placed by the harness next to the real plain accesses) assert FastTrack's write->read and
  * write->write conditions.  Explored executions are the sequentially consistent interleavings only (stated limit). */
-VP_THREAD_LOCAL uint8_t vp_vc[4], vp_facq[4], vp_frel[4];
-uint8_t vp_w_tid[4], vp_w_clk[4], vp_w_set[4];
-static inline uint32_t vp_pack(const uint8_t *c) { return (uint32_t)c[0] | ((uint32_t)c[1] << 8) | ((uint32_t)c[2] << 16) | ((uint32_t)c[3] << 24); }
-static inline uint8_t vp_comp(uint32_t p, int k) { return (uint8_t)(p >> (8 * k)); }
-static inline uint8_t vp_max8(uint8_t a, uint8_t b) { return a > b ? a : b; }
+#define VP_HB_PK vp_pk_t
+#ifdef VP_PREEMPT
+/* sequentialised (Tier A) schedules: logical threads are contexts (vp_tid), clocks are 16 bit, the release-clock shadow is an array */
+typedef uint16_t vp_clk_t; typedef uint64_t vp_pk_t;
+#define VP_CLK_BITS 16
+static vp_clk_t vp_vcs[4][4], vp_facqs[4][4], vp_frels[4][4];
+#define vp_vc (vp_vcs[vp_tid & 3])
+#define vp_facq (vp_facqs[vp_tid & 3])
+#define vp_frel (vp_frels[vp_tid & 3])
+static vp_pk_t VP_HMEM[VP_WORDS];
+static inline vp_pk_t vp_hrd(uint64_t i) { return VP_HMEM[i & (VP_WORDS - 1)]; }
+static inline void vp_hwr(uint64_t i, vp_pk_t v) { VP_HMEM[i & (VP_WORDS - 1)] = v; }
+#else
+typedef uint8_t vp_clk_t; typedef uint32_t vp_pk_t;
+#define VP_CLK_BITS 8
+VP_THREAD_LOCAL vp_clk_t vp_vc[4], vp_facq[4], vp_frel[4];
+#endif
+uint8_t vp_w_tid[4], vp_w_set[4]; vp_clk_t vp_w_clk[4];
+static inline vp_pk_t vp_pack(const vp_clk_t *c) { return (vp_pk_t)c[0] | ((vp_pk_t)c[1] << VP_CLK_BITS) | ((vp_pk_t)c[2] << (2 * VP_CLK_BITS)) | ((vp_pk_t)c[3] << (3 * VP_CLK_BITS)); }
+static inline vp_clk_t vp_comp(vp_pk_t p, int k) { return (vp_clk_t)(p >> (VP_CLK_BITS * k)); }
+static inline vp_clk_t vp_max8(vp_clk_t a, vp_clk_t b) { return a > b ? a : b; }
+#ifdef VP_PREEMPT
+void vp_hb_thread_start(int tid) { if (tid == 0) vp_vcs[0][0] = 1; }
+/* called by the entry when the units start: everything done so far (the prologue, on context 0) happens-before every logical thread */
+void vp_hb_fork(void) {
+  for (int t = 1; t < 4; t++) { for (int k = 0; k < 4; k++) { vp_vcs[t][k] = vp_vcs[0][k]; vp_facqs[t][k] = 0; vp_frels[t][k] = 0; } vp_vcs[t][t] = 1; }
+}
+/* ghost synchronisation of a MODELLED hand-off (stub executor mailbox, stub event): release / acquire on a ghost clock, no schedule point */
+static vp_clk_t vp_gsync[4][4];
+void vp_hb_sync_release(uint32_t id) { for (int k = 0; k < 4; k++) vp_gsync[id & 3][k] = vp_max8(vp_gsync[id & 3][k], vp_vc[k]); vp_vc[vp_tid & 3] = (vp_clk_t)(vp_vc[vp_tid & 3] + 1); }
+void vp_hb_sync_acquire(uint32_t id) { for (int k = 0; k < 4; k++) vp_vc[k] = vp_max8(vp_vc[k], vp_gsync[id & 3][k]); }
+#else
 void vp_hb_thread_start(int tid) {
   for (int k = 0; k < 4; k++) { vp_vc[k] = 0; vp_facq[k] = 0; vp_frel[k] = 0; }
   vp_vc[0] = 1;       /* everything the main thread did before spawning (the prologue) happens-before the thread */
   vp_vc[tid & 3] = 1;
 }
+void vp_hb_fork(void) {}
+void vp_hb_sync_release(uint32_t id) {}
+void vp_hb_sync_acquire(uint32_t id) {}
+#endif
 /* rel must have been read by the caller at the very top of its atomic section: CBMC yields unconstrained values for a shared
  * variable that is first read inside a branch of an atomic section in which another branch writes it */
 #define VP_HB_REL(a) vp_hrd(((a) & (VP_BYTES - 1)) >> 3)
-static void vp_hb_atomic(uint64_t a, uint32_t rel, int is_read, int is_write, int order) {
+static void vp_hb_atomic(uint64_t a, vp_pk_t rel, int is_read, int is_write, int order) {
   uint64_t i = (a & (VP_BYTES - 1)) >> 3;
   int acq = order == 2 || order == 4 || order == 5, rls = order == 3 || order == 4 || order == 5;
   if (is_read) {
     for (int k = 0; k < 4; k++) { if (acq) vp_vc[k] = vp_max8(vp_vc[k], vp_comp(rel, k)); else vp_facq[k] = vp_max8(vp_facq[k], vp_comp(rel, k)); }
   }
   if (is_write) {
-    uint8_t n[4];
+    vp_clk_t n[4];
     for (int k = 0; k < 4; k++) {
-      uint8_t mine = rls ? vp_vc[k] : vp_frel[k];                 /* relaxed write publishes only what a release fence published */
+      vp_clk_t mine = rls ? vp_vc[k] : vp_frel[k];                 /* relaxed write publishes only what a release fence published */
       n[k] = is_read ? vp_max8(vp_comp(rel, k), mine) : mine;     /* an RMW continues the release sequence, a store replaces it */
     }
     vp_hwr(i, vp_pack(n));
   }
-  vp_vc[vp_tid & 3] = (uint8_t)(vp_vc[vp_tid & 3] + 1);
+  vp_vc[vp_tid & 3] = (vp_clk_t)(vp_vc[vp_tid & 3] + 1);
+  VP_ASSERT(vp_vc[vp_tid & 3] != 0, "VP-BOUND: happens-before clock overflow");
 }
 static void vp_hb_fence(int order) {
   if (order == 2 || order == 4 || order == 5) for (int k = 0; k < 4; k++) vp_vc[k] = vp_max8(vp_vc[k], vp_facq[k]);
   if (order == 3 || order == 4 || order == 5) for (int k = 0; k < 4; k++) vp_frel[k] = vp_vc[k];
+}
+/* MODELLED locks (spinlock, pthread mutex in rt/vp_sync.c): lock = acquire, unlock = release on the lock word's ghost clock */
+void vp_hb_lock_acquire(uint64_t a) { vp_pk_t rel = VP_HB_REL(a); for (int k = 0; k < 4; k++) vp_vc[k] = vp_max8(vp_vc[k], vp_comp(rel, k)); }
+void vp_hb_lock_release(uint64_t a) {
+  vp_pk_t rel = VP_HB_REL(a); vp_clk_t n[4];
+  for (int k = 0; k < 4; k++) n[k] = vp_max8(vp_comp(rel, k), vp_vc[k]);
+  vp_hwr((a & (VP_BYTES - 1)) >> 3, vp_pack(n));
+  vp_vc[vp_tid & 3] = (vp_clk_t)(vp_vc[vp_tid & 3] + 1);
 }
 void vp_hb_write(uint32_t id) {
   id &= 3;
@@ -176,9 +216,15 @@ void vp_hb_read(uint32_t id) {
 #else
 #define vp_hb_plain(a, w) ((void)0)
 #define vp_hb_atomic(a, rel, r, w, o) ((void)0)
+#define VP_HB_PK uint32_t
 #define VP_HB_REL(a) 0
 #define vp_hb_fence(o) ((void)0)
 void vp_hb_thread_start(int tid) {}
+void vp_hb_lock_acquire(uint64_t a) {}
+void vp_hb_lock_release(uint64_t a) {}
+void vp_hb_fork(void) {}
+void vp_hb_sync_release(uint32_t id) {}
+void vp_hb_sync_acquire(uint32_t id) {}
 void vp_hb_write(uint32_t id) {}
 void vp_hb_read(uint32_t id) {}
 #endif
@@ -359,7 +405,7 @@ void vp2_run_rest(void) {}
 uint64_t vp_atomic_load(uint64_t a, int sz, int order) {
   vp_preempt_point();
   VP_ATOMIC_BEGIN();
-  uint32_t hrel = VP_HB_REL(a); (void)hrel;
+  VP_HB_PK hrel = VP_HB_REL(a); (void)hrel;
   vp_chk(a, sz);
   uint64_t v = vp_rd(a, sz);
   vp_hb_atomic(a, hrel, 1, 0, order);
@@ -370,7 +416,7 @@ uint64_t vp_atomic_load(uint64_t a, int sz, int order) {
 void vp_atomic_store(uint64_t a, int sz, uint64_t v, int order) {
   vp_preempt_point();
   VP_ATOMIC_BEGIN();
-  uint32_t hrel = VP_HB_REL(a); (void)hrel;
+  VP_HB_PK hrel = VP_HB_REL(a); (void)hrel;
   vp_chk(a, sz);
   vp_wr(a, sz, v);
   vp_hb_atomic(a, hrel, 0, 1, order);
@@ -380,7 +426,7 @@ void vp_atomic_store(uint64_t a, int sz, uint64_t v, int order) {
 uint64_t vp_atomic_rmw(int op, uint64_t a, int sz, uint64_t v, int order) {
   vp_preempt_point();
   VP_ATOMIC_BEGIN();
-  uint32_t hrel = VP_HB_REL(a); (void)hrel;
+  VP_HB_PK hrel = VP_HB_REL(a); (void)hrel;
   vp_chk(a, sz);
   uint64_t old = vp_rd(a, sz), nw = 0;
   uint64_t m = vp_mask(sz);
@@ -411,7 +457,7 @@ struct vp_cas_res vp_cmpxchg(uint64_t a, int sz, uint64_t expect, uint64_t desir
   if (weak && vp_spurious_left > 0 && VP_NONDETBOOL()) { vp_spurious_left--; spurious = 1; }
   if (weak && vp_spurious_at >= 0) { if (vp_weak_seen == vp_spurious_at) spurious = 1; vp_weak_seen++; }
   VP_ATOMIC_BEGIN();
-  uint32_t hrel = VP_HB_REL(a); (void)hrel;
+  VP_HB_PK hrel = VP_HB_REL(a); (void)hrel;
   vp_chk(a, sz);
   uint64_t m = vp_mask(sz);
   r.old = vp_rd(a, sz);
